@@ -5,6 +5,7 @@ import (
 	"encoding/binary"
 	"errors"
 	"fmt"
+	"log/slog"
 	"net"
 	"sync"
 	"sync/atomic"
@@ -119,14 +120,36 @@ type SysEvents struct {
 	Dead       []*XMsg      // XMsg dead letters, in order
 	DeadOther  int
 	ReadFailed []string     // ConnectionReadFailedHandler calls (fatal flag + error text)
+	Oversize   []uint64     // "invalid message length" warnings of the connection readers (length attribute)
 	Trace      []string     // sender-side events in publication order: "cf<n>" "sf" "ok" "dl<sender>:<seq>"
 }
 
 func (e *SysEvents) snapshotCounts() (df, rc, cf, sf, st, dl, rf, tr int) {
 	e.mu.Lock()
 	defer e.mu.Unlock()
-	return len(e.DecodeFail), len(e.Received), len(e.ConnFailed), len(e.SendFailed), len(e.Sent), len(e.Dead), len(e.ReadFailed), len(e.Trace)
+	return len(e.DecodeFail), len(e.Received), len(e.ConnFailed), len(e.SendFailed), len(e.Sent), len(e.Dead), len(e.Oversize), len(e.Trace)
 }
+
+// capLogger: a silent logger that keeps the one warning the harness needs to observe
+type capLogger struct{ ev *SysEvents }
+
+func (l capLogger) Debug(string, ...any) {}
+func (l capLogger) Info(string, ...any)  {}
+func (l capLogger) Error(string, ...any) {}
+func (l capLogger) Warn(message string, args ...any) {
+	if message != "invalid message length" {
+		return
+	}
+	for _, a := range args {
+		if at, ok := a.(slog.Attr); ok && at.Key == "length" {
+			l.ev.mu.Lock()
+			l.ev.Oversize = append(l.ev.Oversize, uint64(at.Value.Int64()))
+			l.ev.mu.Unlock()
+		}
+	}
+}
+func (l capLogger) With(...any) log.Logger       { return l }
+func (l capLogger) WithGroup(string) log.Logger { return l }
 
 // Node = one real actor system with remoting behind its own proxy.
 type Node struct {
@@ -144,6 +167,20 @@ type Node struct {
 	AskOK    atomic.Int64
 	AskBad   atomic.Int64
 	askDetail sync.Map
+	obsRef    vivid.ActorRef
+}
+
+type barrier struct{ ch chan struct{} }
+
+// Barrier returns when the event observer has handled everything that was in its mailbox: every event published
+// before an already observed delivery is then accounted for.
+func (n *Node) Barrier() {
+	b := &barrier{ch: make(chan struct{})}
+	n.Sys.Tell(n.obsRef, b)
+	select {
+	case <-b.ch:
+	case <-time.After(5 * time.Second):
+	}
 }
 
 func freePort() (string, error) {
@@ -203,7 +240,7 @@ func StartNode(name string, limit int, proxy *Proxy) (*Node, error) {
 		ro := vivid.NewActorSystemRemotingOptions(vivid.WithActorSystemRemotingReconnectLimit(limit))
 		ro.ConnectionReadFailedHandler = readFailed{n.Ev}
 		n.Sys = bootstrap.NewActorSystem(
-			vivid.WithActorSystemLogger(log.NewSilentLogger()),
+			vivid.WithActorSystemLogger(capLogger{n.Ev}),
 			vivid.WithActorSystemRemoting(bind, n.Adv),
 			vivid.WithActorSystemCodec(xcodec{}),
 			vivid.WithActorSystemRemotingOptions(ro),
@@ -232,7 +269,8 @@ func StartNode(name string, limit int, proxy *Proxy) (*Node, error) {
 func (n *Node) spawn() error {
 	ready := make(chan struct{})
 	// event observer
-	_, err := n.Sys.ActorOf(vivid.ActorFN(func(ctx vivid.ActorContext) {
+	var err error
+	n.obsRef, err = n.Sys.ActorOf(vivid.ActorFN(func(ctx vivid.ActorContext) {
 		ev := n.Ev
 		switch m := ctx.Message().(type) {
 		case *vivid.OnLaunch:
@@ -244,6 +282,8 @@ func (n *Node) spawn() error {
 			es.Subscribe(ctx, ves.RemotingMessageSentEvent{})
 			es.Subscribe(ctx, ves.DeathLetterEvent{})
 			close(ready)
+		case *barrier:
+			close(m.ch)
 		case ves.RemotingMessageDecodeFailedEvent:
 			ev.mu.Lock()
 			ev.DecodeFail = append(ev.DecodeFail, m)
